@@ -244,7 +244,7 @@ def draw_rotator_params(rng, model_params: dict, *, lazy: bool | None = None) ->
     elif lazy is False:
         compute = True
     p["compute"] = compute
-    p["max_iter"] = 1000 if compute else rng.randint(3, 7)
+    p["max_iter"] = rng.choice([1000, 300, 300]) if compute else rng.randint(3, 7)
     p["rtol"] = 1e-8
     return p
 
